@@ -2,6 +2,7 @@
 // Exhaustive enumeration of explicitly generated families of argument lists x print options (x address for whole
 // messages). Oracle: the property statement. Scanned arrays are walked and range-expanded by the harness's own code
 // (engine/pretty_common.h), compared bit for bit with the original list, and additionally with rtosc_arg_vals_eq.
+#include <algorithm>
 #include <climits>
 #include <cfloat>
 #include <cmath>
@@ -424,7 +425,7 @@ int main(int argc, char **argv)
     vp::bound("arrays", "every homogeneous array of length 0..4 over 3 values per element type (14 element types), alone and between scalars; arrays of 1..2 (thorough 3) arrays over 6 inner arrays; arrays holding a run of length 3..8 with an optional extra element");
     vp::bound("strings", "every string of length 0..3 over {a \" \\ \\n ' ' % 1} + identifiers + reserved words + one 130-char string, as s and S, alone and between neighbours");
     vp::bound("chars", T ? "every printable ASCII char and C escape, alone and every ordered pair" : "6 chars in V; every printable ASCII char and C escape alone");
-    vp::bound("time_tags", "immediately + 4 dates x {00:00:00,00:01:00,12:34:56} x fraction {0,.5,.25,.125,2^-20}; alone, before and behind every value of V");
+    vp::bound("time_tags", "immediately + 4 dates x {00:00:00,00:01:00,12:34:56} x fraction {0,.5,.25,.125,2^-20}; alone, before and behind every value of V; plus a lattice of fractions: leading bit 2^-1..2^-32 x 6 mantissa shapes of up to 24 bits, on two dates");
     vp::bound("floats", T ? "sign x every exponent x mantissa {0,1,2^k,all ones} for f (12750); sign x every exponent x {0,1,2^51,all ones} for d (16376); finite only; alone, before i:1, behind i:-1" : "same family thinned to every 8th exponent (f) / every 64th (d)");
     vp::bound("buffers", "print buffer 8192 bytes with buffer[-1]=' '; scan scratch 8192 bytes; output array = announced count + 16 guard slots (0xA5 sentinel)");
 
@@ -632,6 +633,22 @@ int main(int argc, char **argv)
         do_list("time", idx++, List{t});
         for(auto &v : V) { do_list("time", idx++, List{t, v}, FEW); do_list("time", idx++, List{v, t}, FEW); }
         if(T) for(auto &u : TIMES) do_list("time", idx++, List{t, u}, FEW);
+    }
+    // time-tag fractions: every position of the leading bit (2^-1 .. 2^-32) x the mantissa shapes a float can hold exactly (1 bit, 2 adjacent
+    // bits, leading + last bit of the 24-bit window, all 24 bits set, the 0.1f / 0.3f bit patterns shifted there), on two dates
+    {
+        std::vector<uint32_t> fracs;
+        for(int p = 31; p >= 0; --p) {
+            int lo = p - 23 < 0 ? 0 : p - 23;
+            uint32_t top = 1u << p, win = (p == 31 ? 0xffffffffu : ((1u << (p + 1)) - 1)) & ~((1u << lo) - 1);
+            for(uint32_t pat : {top, top | (top >> 1), top | (1u << lo), win, (0xCCCCCD00u >> (31 - p)) & win, (0x99999A00u >> (31 - p)) & win})
+                if(pat && std::find(fracs.begin(), fracs.end(), pat) == fracs.end()) fracs.push_back(pat);
+        }
+        for(uint32_t f : fracs) for(int dsel = 0; dsel < 2; ++dsel) {
+            PV t = dsel ? pf::Tt(pf::utc_secs(2016, 11, 16, 12, 34, 56), f) : pf::Tt(pf::utc_secs(1970, 1, 2, 0, 0, 0), f);
+            do_list("time", idx++, List{t});
+            do_list("time", idx++, List{pf::I(1), t, pf::Fl(0.5f)}, FEW);
+        }
     }
     if(!g_stop) g_fam_done += "time ";
     // ---- family "flt": the float/double lattice
